@@ -5,10 +5,14 @@ Model of the result views in `jaqalpaq/core/result.py`:
 * `OutputParser.process_trace`: a string output `s` is read as `int(s[::-1], 2)`
 * `relative_frequency_by_str` / `simulated_probability_by_str`: keys `f"{n:b}".zfill(k)[::-1]` for `n` in `enumerate(p)`
 * `ReadoutSubcircuit.accept_readout`: `relative_frequencies[readout.as_int] += 1`
+* `ProbabilisticSubcircuit.__init__`: clip to [0,1], renormalise, warn / raise on the size of the correction
+  (over exact rationals instead of IEEE doubles)
 
 Core Lean only.
 -/
 namespace Jaqal.Result
+
+/-! ## `as_str`, `int(s[::-1], 2)` -/
 
 /-- `f"{n:b}"`: binary digits, most significant first, `"0"` for zero. Fuel = `n` is always enough. -/
 def binMSBAux : Nat → Nat → List Bool → List Bool
@@ -41,8 +45,82 @@ def ofStr (s : String) : Option Nat := intBase2 s.toList.reverse
 /-- keys of the `*_by_str` views for a `k`-qubit subcircuit whose vector has `len` entries. -/
 def viewKeys (k len : Nat) : List String := (List.range len).map (asStr k)
 
-/-- `accept_readout` folded over a list of integer outcomes: histogram of length `len`. -/
+/-! ## `accept_readout` -/
+
+/-- `accept_readout` folded over a list of integer outcomes: histogram of length `len`
+(closed form; out-of-range outcomes are not counted — see `acceptAll` for the code path that exists). -/
 def histogram (len : Nat) (outs : List Nat) : List Nat :=
   (List.range len).map (fun i => outs.count i)
+
+/-- One `self._relative_frequencies[readout.as_int] += 1` on an array: `none` where numpy raises
+`IndexError` (index ≥ length; negative indices are not modelled, outcomes are `Nat`). -/
+def bump : List Nat → Nat → Option (List Nat)
+  | [], _ => none
+  | x :: xs, 0 => some ((x + 1) :: xs)
+  | x :: xs, i+1 => (bump xs i).map (x :: ·)
+
+/-- The code path that exists: start from `numpy.zeros(len)` and `accept_readout` every outcome in turn;
+`none` as soon as one outcome is out of range (`IndexError`). -/
+def acceptAll (len : Nat) (outs : List Nat) : Option (List Nat) :=
+  outs.foldlM bump (List.replicate len 0)
+
+/-! ## `ProbabilisticSubcircuit.__init__` -/
+
+/-- `ProbabilisticSubcircuit.CUTOFF_FAIL` (source literal `2e-6`, read as an exact decimal). -/
+def cutoffFail : Rat := 2e-6
+/-- `ProbabilisticSubcircuit.CUTOFF_WARN` (source literal `1e-13`, read as an exact decimal). -/
+def cutoffWarn : Rat := 1e-13
+
+/-- `numpy.clip(x, 0, 1)` = `minimum(maximum(x, 0), 1)` on one entry. -/
+def clip01 (x : Rat) : Rat := if x < 0 then 0 else if 1 < x then 1 else x
+
+/-- `numpy.abs`. -/
+def absR (x : Rat) : Rat := if x < 0 then -x else x
+
+/-- Python's builtin `max(a, b)`: `b` if `b > a` else `a`. -/
+def pyMax (a b : Rat) : Rat := if a < b then b else a
+
+/-- `ndarray.max()`: `none` for an empty array (numpy raises `ValueError`). -/
+def maxList : List Rat → Option Rat
+  | [] => none
+  | x :: xs => some (xs.foldl (fun m y => if m < y then y else m) x)
+
+/-- `p_clipped = numpy.clip(p, 0, 1)`. -/
+def clipped (p : List Rat) : List Rat := p.map clip01
+
+/-- `clip_err = numpy.abs(p_clipped - p).max()`. -/
+def clipErr (p : List Rat) : Option Rat := maxList (p.map (fun x => absR (clip01 x - x)))
+
+/-- `total = p_clipped.sum()`. -/
+def total (p : List Rat) : Rat := (clipped p).sum
+
+/-- `total_err = numpy.abs(total - 1)`. -/
+def totalErr (p : List Rat) : Rat := absR (total p - 1)
+
+/-- `err = max(total_err, clip_err)`; `none` for an empty vector. -/
+def normErr (p : List Rat) : Option Rat := (clipErr p).map (fun ce => pyMax (totalErr p) ce)
+
+/-- `ProbabilisticSubcircuit.__init__` on the probability vector: the stored `_probabilities` and whether a
+`RuntimeWarning` was issued; `.error "runtime"` where the constructor raises `RuntimeError`,
+`.error "value"` where numpy raises `ValueError` (empty vector: `max` of an empty array).
+
+Order of operations as in the source: clip, `clip_err`, `total`, `total_err`, divide when `total_err > 0`,
+then `err` against the two cutoffs. When `total = 0` numpy's in-place division yields nan (0/0) with a numpy
+warning, no exception; then `total_err = 1 > CUTOFF_FAIL` and the constructor raises — that case is made
+explicit here so that no division by zero is ever evaluated in the model. -/
+def normalize (p : List Rat) : Except String (List Rat × Bool) :=
+  let pc := clipped p
+  match clipErr p with
+  | none => .error "value"
+  | some ce =>
+    let tot := total p
+    let te := totalErr p
+    if tot = 0 then .error "runtime"
+    else
+      let q := if 0 < te then pc.map (· / tot) else pc
+      let err := pyMax te ce
+      if cutoffWarn < err then
+        if cutoffFail < err then .error "runtime" else .ok (q, true)
+      else .ok (q, false)
 
 end Jaqal.Result
